@@ -640,7 +640,7 @@ func (w *c20World) check(t *rapid.T, ub *ledgercore.UnfinishedBlock, blk bookkee
 	}
 	pay2 := ub2.UnfinishedBlock().Payset
 	p1, p2 := protocol.Encode(blk.Payset), protocol.Encode(pay2)
-	if string(p1) != string(p2) {
+	if (len(blk.Payset) != 0 || len(pay2) != 0) && string(p1) != string(p2) { // (an empty payset may be nil or empty: same block)
 		t.Fatalf("C20 block %d (%s): generating the same transactions again gives a different payset (ApplyData)\n  %x\n  %x\n  %s", blk.Round(), how, p1, p2, w.tail())
 	}
 	if a, b := c20CanonDelta(ub.UnfinishedDeltas(), nil, false, true), c20CanonDelta(ub2.UnfinishedDeltas(), nil, false, true); a != b {
@@ -1034,6 +1034,7 @@ func (w *c20World) round(t *rapid.T) {
 	}
 	// node B restarts now and then: the next Validate on it starts from a cold process-like state
 	if rapid.IntRange(0, 4).Draw(t, "reopenB") == 0 {
+		w.B.WaitForCommit(w.B.Latest()) // a clean shutdown after the block queue has written the block
 		w.B.Close()
 		var err error
 		w.B, err = ledger.OpenLedger(c20Logger(), w.pathB, false, w.genesis, w.cfgB)
